@@ -102,7 +102,8 @@ def model_check(ck, vs, quick):
     n = 3 if quick else 4
     cst, env = setup(vs, docs, ["map", "layer"], vset, "mc", ids=set(M_REPS), max_calls=n, mode="mc")
     cfg = tlc.cfg_text(constants=cst, invariants=["CacheSound", "HistoryIndependent", "VersionlessAcceptsAll", "Bound"])
-    r = tlc.run("Validator", cfg, tag="c09_mc", workers=16, timeout=300 if quick else 3000, coverage=True, env=env)
+    r = tlc.run("Validator", cfg, tag="c09_mc", workers=4 if quick else 16, timeout=600 if quick else 3000, coverage=True,
+                env=env)
     ck.add_tlc("validator_mc(len<=%d)" % n, r)
     if r.violated:
         ck.violation("C09|model|%s" % r.violated, "invariant %s violated in spec/Validator.tla" % r.violated,
@@ -161,7 +162,7 @@ def run_schemas(ck, vs, rows, tmp):
             try:
                 got = rp.call(impl.Validator(), c)
             except Exception as ex:  # noqa: BLE001
-                ck.violation("C09|schema|%s|%s|raised|%s" % (op, row["name"], type(ex).__name__),
+                ck.violation("C09|schema|raised|%s|%s|%s" % (type(ex).__name__, op, row["name"]),
                              "%s on %s raised %s: %s" % (call_txt(c), row["name"], type(ex).__name__, str(ex)[:120]),
                              {"kind": "history", "history": [{"call": c, "exp": exp}], "step": 0, "origin": "schemas"})
                 continue
@@ -169,7 +170,7 @@ def run_schemas(ck, vs, rows, tmp):
                 ck.nontrivial((op, row["name"], row["v"]))
             if not rp.agrees(got, exp):
                 for s in vs_entry_classes(vs, c, got, exp) or ["?"]:
-                    ck.violation("C09|schema|%s|%s|%s" % (op, row["name"], s),
+                    ck.violation("C09|schema|%s|%s|%s" % (s, op, row["name"]),
                                  "%s on %s answers %s on a fresh Validator, the contract says %s" % (
                                      call_txt(c), row["name"], brief(got), brief(exp)),
                                  {"kind": "history", "history": [{"call": c, "exp": exp}], "step": 0, "origin": "schemas", "got": got})
@@ -437,12 +438,12 @@ def alone_signatures(ck, rp, c, got, exp):
         return ["C09|accept|" + where + suffix]
     out = []
     for cls in vs_entry_classes(vs, c, got, exp) or ["?"]:
-        base = "C09|schema|get_versioned|%s|%s" % (c["name"], cls)
+        base = "C09|schema|%s|get_versioned|%s" % (cls, c["name"])
         if c["op"] in ("export", "mod_export") and not (
                 base in ck.violations or any(k.get("status") == "known" and common.match_sig(k["signature"], base) for k in ck.known)):
-            base = "C09|schema|%s|%s|%s" % (c["op"], c["name"], cls)      # seen on the export path only
+            base = "C09|schema|%s|%s|%s" % (cls, c["op"], c["name"])      # seen on the export path only
         elif c["op"] == "mod_create":
-            base = "C09|schema|mod_create|%s|%s" % (c["name"], cls)
+            base = "C09|schema|%s|mod_create|%s" % (cls, c["name"])
         out.append(base)
     return out
 
@@ -452,14 +453,14 @@ def vs_entry_classes(vs, c, got, exp):
     if "absent" in exp and got.get("absent") is not None:
         out = []
         for e in sorted(set(got["absent"]) ^ set(exp["absent"])):
-            out.append("%s|%s|%s" % (e, versions.vclass(vs.by_id[e], c["v"]), "unpruned" if e in exp["absent"] else "missing"))
+            out.append("%s|%s|%s" % ("unpruned" if e in exp["absent"] else "missing", e, versions.vclass(vs.by_id[e], c["v"])))
         for e in got.get("partial", []):
-            out.append("%s|%s|partially-pruned" % (e, versions.vclass(vs.by_id[e], c["v"])))
+            out.append("partially-pruned|%s|%s" % (e, versions.vclass(vs.by_id[e], c["v"])))
         if got.get("anomalies"):
             out.append("anomaly|%s" % got["anomalies"][0])
         return out
     if "defaults" in exp:
-        return ["%s|%s|%s" % (e, versions.vclass(vs.by_id[e], c["v"]), "kept" if e in got["defaults"] else "dropped")
+        return ["%s|%s|%s" % ("default-kept" if e in got["defaults"] else "default-dropped", e, versions.vclass(vs.by_id[e], c["v"]))
                 for e in sorted(set(got["defaults"]) ^ set(exp["defaults"]))]
     return []
 
